@@ -159,6 +159,7 @@ fn random_session(rng: &mut Rng) -> Session {
     cfg.allow_branch = rng.chance(1, 2);
     cfg.branch_pct = 6;
     cfg.unknown_target_pct = 35;
+    cfg.partial_guards_pct = if rng.chance(1, 3) { 40 } else { 0 };
     cfg.expr_depth = rng.range(1, 3) as u32;
     let mut prog = vec![gen::function(rng, &cfg, 0x1000)];
     if rng.chance(1, 3) {
